@@ -36,7 +36,7 @@ PLAN = {
 }
 KNOWN_F10 = "identifier-not-persisted-because-directory-absent"
 CANON = re.compile(r"^[0-9a-f]{8}-[0-9a-f]{4}-[0-9a-f]{4}-[0-9a-f]{4}-[0-9a-f]{12}$")
-OPS = ["read", "read", "read", "regen", "register", "unregister", "delreg", "delunreg", "plant", "mkdir"]
+OPS = ["read", "read", "read", "regen", "register", "unregister", "delreg", "delunreg", "plant", "mkdir", "faulty"]
 ID_FORMS = {
     "canonical": "dc194312-de5f-44a1-a7d0-c2d1b3f4e5a6",
     "upper": "DC194312-DE5F-44A1-A7D0-C2D1B3F4E5A6",
@@ -76,6 +76,9 @@ def gen_case(rng, tier, idx):
                         rng.choice(["link_victim", "link_dangling", "link_dir", "link_victim_rel"])])
         elif op == "mkdir":
             ops.append([op, [rng.random() < 0.6, rng.random() < 0.6]])
+        elif op == "faulty":
+            # a registration / unregistration during which the n-th removal of a file fails (permission denied)
+            ops.append([rng.choice(["register", "unregister"]), {"fail_remove": rng.randint(1, 4)}])
         else:
             ops.append([op])
     return {"init": {"dir1": dir1, "dir2": dir2, "id": idform, "markers": markers},
@@ -178,6 +181,36 @@ def run_case(spec, ctx):
                 last_id = got
                 last_persisted = os.path.isfile(idf) and bool(open(idf).read().strip())
                 last_dir_absent = dir_absent_before
+            elif name in ("register", "unregister") and len(op) > 1:
+                # fault injection: the operation may fail, but what it leaves behind must still be coherent
+                real_remove = os.remove
+                calls = [0]
+
+                def failing_remove(path, *a, **k):
+                    if str(path).startswith(base) and os.path.lexists(path):
+                        calls[0] += 1
+                        if calls[0] == op[1]["fail_remove"]:
+                            raise PermissionError(13, "Permission denied (injected)", str(path))
+                    return real_remove(path, *a, **k)
+                def together(n):
+                    return os.path.isdir(d[n]) and os.path.lexists(os.path.join(d[n], ".registered")) and os.path.lexists(os.path.join(d[n], ".unregistered"))
+                together_before = dict((n, together(n)) for n in (1, 2))
+                os.remove = failing_remove
+                failed = False
+                try:
+                    u.write_registered_file() if name == "register" else u.write_unregistered_file()
+                except OSError:
+                    failed = True
+                finally:
+                    os.remove = real_remove
+                ctx.count("marker_operations_with_an_injected_fault")
+                if failed:
+                    ctx.count("marker_operations_that_failed_on_the_injected_fault")
+                for n in (1, 2):
+                    # a failed operation cannot be asked to repair a directory that already held both markers (an initial
+                    # state of the quantifier), but it must not be what puts them together
+                    if together(n) and not together_before[n]:
+                        ctx.violation("both-markers-exist-together", dict(w, directory=n, listing=sorted(os.listdir(d[n])), operation_failed=failed))
             elif name in ("register", "unregister"):
                 links_before = [p for p in (constants.registered_files if name == "register" else constants.unregistered_files) if os.path.islink(p)]
                 try:
